@@ -111,9 +111,17 @@ def run(case, obs):
     skw = dict(return_x=case['return_x'], return_exceptions=case['return_exceptions'])
     ncon = (6 if n else 0) if not case.get('waiters') else 12
 
+    sessions = case.get('sessions', 1)
+
     def sync_run():
+        # the same server object is entered `sessions` times
+        srv = Server(servlet(), capacity=case['capacity'])
+        res = [sync_session(srv) for _ in range(sessions)]
+        return res[0] if sessions == 1 else tuple(zip(*res))
+
+    def sync_session(srv):
         calls = []
-        with Server(servlet(), capacity=case['capacity']) as s:
+        with srv as s:
             for x in items[:10]:
                 try:
                     calls.append(norm_exc(s.call(x, timeout=20)))
@@ -143,9 +151,15 @@ def run(case, obs):
                 t.join()
         return calls, out, term, [conc[i] for i in range(ncon)]
 
-    async def async_run():
+    def async_run():
+        # ... each time under a new event loop, the way a program calls asyncio.run() per batch of work
+        srv = AsyncServer(servlet(), capacity=case['capacity'])
+        res = [asyncio.run(async_session(srv)) for _ in range(sessions)]
+        return res[0] if sessions == 1 else tuple(zip(*res))
+
+    async def async_session(srv):
         calls = []
-        async with AsyncServer(servlet(), capacity=case['capacity']) as s:
+        async with srv as s:
             for x in items[:10]:
                 try:
                     calls.append(norm_exc(await s.call(x, timeout=20)))
@@ -176,21 +190,32 @@ def run(case, obs):
     viol = []
     try:
         rs = watch.run_bounded(sync_run, 40, 'Server run')
-        ra = watch.run_bounded(lambda: asyncio.run(async_run()), 40, 'AsyncServer run')
+        try:
+            ra = watch.run_bounded(async_run, 40, 'AsyncServer run')
+        except (watch.Hang, watch.Inconclusive):
+            raise
+        except Exception as e:  # noqa: BLE001
+            viol.append({'mech': 'AsyncServer/differs-from-Server' + ('/re-entered' if sessions > 1 else ''),
+                         'msg': f'the AsyncServer run raised {e!r}; the same plan through Server gave {rs!r}'[:700]})
+            return {'violations': viol, 'obs': obs, 'exit_after': True}
     except watch.Hang as h:
         viol.append({'mech': 'servers/hang', 'msg': h.what, 'stacks': h.stacks})
         return {'violations': viol, 'obs': obs, 'exit_after': True}
     obs['pairs'] += 1
     obs['server_pairs'] = 1
+    if sessions > 1:
+        obs['server_reentered_pairs'] = 1
+        flat = lambda r: ([z for part in r[0] for z in part], [z for part in r[1] for z in part], r[2], [z for part in r[3] for z in part])  # noqa: E731
+        rs, ra = flat(rs), flat(ra)
     obs['outputs_compared'] += len(rs[0]) + len(rs[1]) + len(rs[3])
     obs['concurrent_waiters'] = obs.get('concurrent_waiters', 0) + len(rs[3])
     if reject_ids:
         obs['pairs_with_rejection'] += 1
     if rs != ra:
-        mech = 'AsyncServer/differs-from-Server'
+        mech = 'AsyncServer/differs-from-Server' + ('/re-entered' if sessions > 1 else '')
         if reject_ids and rs[0] == ra[0]:
             mech = 'AsyncServer.stream/rejected-element-wrong-outcome'
         viol.append({'mech': mech, 'msg': f'sync {rs!r}'[:600] + f' vs async {ra!r}'[:600]})
     sample = {'kind': 'servers', 'n': n, 'capacity': case['capacity'], 'rejected': len(reject_ids), 'calls': len(rs[0]),
               'stream_outputs': len(rs[1]), 'term': repr(rs[2])[:100]}
-    return {'violations': viol, 'obs': obs, 'sigs': [hash(('servers', case['seed'])) & 0xFFFFFFFFFFFF], 'nontrivial': True, 'sample': sample}
+    return {'violations': viol, 'obs': obs, 'sigs': [hash(('servers', case['seed'], sessions)) & 0xFFFFFFFFFFFF], 'nontrivial': True, 'sample': sample}
